@@ -424,6 +424,7 @@ type propResult struct {
 	undecided  []string
 	wall       float64
 	selftest   map[string]interface{}
+	canaries   []map[string]interface{}
 	unreachable []string
 	crossChecked int
 	bounded    []map[string]interface{}
@@ -603,6 +604,12 @@ func runProperty(v *Verifier, prop, tier, only string, seed int, verbose bool) *
 		res.selftest = st
 		res.undecided = append(res.undecided, problems...)
 	}
+	if only == "" && prop != "" && tier == "thorough" && os.Getenv("GOVC_NO_CANARY") == "" {
+		// canaries: every committed scenario replay of this property (each reproduces a defect that
+		// was repaired) is run against the current tree; one that fails again means the violation
+		// has returned, whatever the obligations say
+		res.canaries = runCanaries(v, prop, res)
+	}
 	if exp, ok := v.db.Expect[prop]; ok && res.nObl < exp && only == "" {
 		res.undecided = append(res.undecided, fmt.Sprintf("vacuity: property %s produced %d obligations, contract files expect at least %d", prop, res.nObl, exp))
 	}
@@ -699,6 +706,9 @@ func writeEvidence(v *Verifier, res *propResult) {
 		"evaluations":              res.nObl + res.nCover,
 		"distinct_nontrivial":      res.nObl,
 		"rule":                     "one SMT query per generated proof obligation (per clause / loop invariant conjunct / call-site precondition / monitor invariant at unlock / safety condition); distinct = distinct obligation names; covers (satisfiability of preconditions, reachability of exits) are counted separately",
+	}
+	if res.canaries != nil {
+		cov["replay_canaries"] = res.canaries
 	}
 	if res.selftest != nil {
 		cov["selftest"] = res.selftest
